@@ -135,7 +135,7 @@ func init() {
 
 	register(&Rule{
 		Name:  "FLUSH-CHECKED",
-		Floor: 2,
+		Floor: 1,
 		Doc:   "every bufio.Writer created in a WriteTo method is flushed, with the Flush error checked, on every path that returns a possibly-nil error",
 		Run: func(c *Ctx, scope string, r *Report) {
 			for _, name := range []string{"(*Merger).WriteTo", "(*Segment).WriteTo"} {
